@@ -7,6 +7,7 @@ object is reachable from both engines and that every reference of the copy stays
 drives random operation sequences, including edits of one side that must not show on the other."""
 from __future__ import annotations
 
+import copy
 import math
 
 import numpy as np
@@ -308,7 +309,7 @@ def run(ctx):
             keep = [engine]  # keep every engine alive so that ids are not reused
             ops = []
             for _ in range(nops):
-                op = rnd.choice(["inputs", "inputs", "refill", "process", "process", "process", "restart", "copy", "edit", "toggle", "unload-restart", "look", "unload-look", "empty batch"])
+                op = rnd.choice(["inputs", "inputs", "refill", "process", "process", "process", "restart", "copy", "edit", "toggle", "unload-restart", "look", "unload-look", "empty batch", "failing step"])
                 # what earlier steps handed out (the matrix of output values) stays what it was
                 held.check("a later operation: " + op)
                 ops.append(op)
@@ -373,6 +374,33 @@ def run(ctx):
                     elif op == "look":
                         # the engine is looked at (printed, exported, asked whether it is ready, ...) between two steps
                         observe(fl, engine, rnd, ctx, None)
+                        # ... and the matrix of input values it hands out is worked on by the caller (standardised in place): the
+                        # engine's own inputs are what they were
+                        m = engine.input_values
+                        if isinstance(m, np.ndarray) and m.size and m.flags.writeable and m.dtype.kind == "f":
+                            before = [np.array(v.value, dtype=float, copy=True) for v in engine.input_variables]
+                            m *= 0.5
+                            m -= 1.0
+                            ctx.evaluated()
+                            ctx.hit("compare:matrix handed out by Engine.input_values worked on by the caller")
+                            for v, b in zip(engine.input_variables, before):
+                                if not W.same(np.asarray(v.value, dtype=float), b):
+                                    ctx.violation("working on the matrix returned by Engine.input_values changes the input values of the engine", {"variable": v.name, "inputs": len(engine.input_variables)}, b, v.value)
+                                    v.value = b
+                        engine.process()
+                    elif op == "failing step" and scalar_only:
+                        # a step that fails (a batch handed to a block whose activation method takes one row at a time), caught by
+                        # the caller, who carries on row by row: the failed step leaves no trace
+                        saved = [v.value for v in engine.input_variables]
+                        rows2 = E.rows(rnd, spec, 3)
+                        for k, v in enumerate(engine.input_variables):
+                            v.value = np.array([r[k] for r in rows2])
+                        try:
+                            engine.process()
+                        except Exception:
+                            ctx.hit("event:a step failed and the caller carried on")
+                        for v, x in zip(engine.input_variables, E.rows(rnd, spec, 1)[0]):
+                            v.value = float(x)
                         engine.process()
                     elif op == "unload-look":
                         # a rule is unloaded by hand (it then takes no part in processing, which is legal) and the engine is looked at
@@ -478,6 +506,43 @@ def run(ctx):
                 ctx.hit(f"event:operation raised {type(ex).__name__}")
             ctx.hit("workload:input term that hands back its argument")
             mon.fresh = {}
+        # Function terms made without a map of their own variables, which are then set item by item: each term has its own map -
+        # the original's, its copy's and a freshly built engine's are three maps
+        for i, rnd in ctx.cases("substitution variables", ctx.scale(30, 600)):
+            def make():
+                e = fl.Engine("gains", load=False)
+                e.input_variables = [fl.InputVariable("a", minimum=0.0, maximum=1.0, terms=[fl.Ramp("up", 0.0, 1.0)])]
+                t = fl.Function("f", "gain * a + offset", e) if i % 2 else fl.Function.create("f", "gain * a + offset", e)
+                e.output_variables = [fl.OutputVariable("o", minimum=0.0, maximum=10.0, defuzzifier=fl.WeightedAverage(), terms=[t])]
+                e.rule_blocks = [fl.RuleBlock("rb", conjunction=fl.Minimum(), disjunction=fl.Maximum(), implication=fl.Minimum(), activation=fl.General(), rules=[fl.Rule.create("if a is up then o is f")])]
+                t.update_reference(e)
+                t.load()
+                e.rule_blocks[0].load_rules(e)
+                return e
+
+            g1, g2 = rnd.choice([2.0, 3.0]), rnd.choice([5.0, 0.5])
+            first = make()
+            tf = first.output_variables[0].terms[0]
+            tf.variables["gain"], tf.variables["offset"] = g1, 1.0
+            dup = first.copy() if i % 4 < 2 else copy.deepcopy(first)
+            td = dup.output_variables[0].terms[0]
+            td.variables["gain"] = g2
+            other = make()
+            ctx.evaluated()
+            ctx.hit("workload:substitution variables set item by item")
+            if tf.variables.get("gain") != g1 or td.variables.get("gain") != g2 or "gain" in other.output_variables[0].terms[0].variables:
+                ctx.violation("Function terms share their map of substitution variables (original, copy, freshly built engine)", {"set on the original": g1, "set on the copy": g2}, [g1, g2, None], [tf.variables.get("gain"), td.variables.get("gain"), other.output_variables[0].terms[0].variables.get("gain")])
+                continue
+            x = rnd.choice([0.25, 0.5, 1.0])
+            for e_, g in ((first, g1), (dup, g2)):
+                e_.input_variables[0].value = x
+                try:
+                    e_.process()
+                    got = float(np.asarray(e_.output_variables[0].value))
+                    if not (abs(got - (g * x + 1.0)) <= 1e-12):
+                        ctx.violation("an engine and its copy do not compute with their own substitution variables", {"gain": g, "a": x}, g * x + 1.0, got)
+                except Exception as ex:
+                    ctx.hit(f"event:operation raised {type(ex).__name__}")
         for i, rnd in ctx.cases("structural edits", ctx.scale(80, 4000)):
             spec = E.gen_engine(rnd, activations=("General",), d=3, kinds=("ts", "tsukamoto", "integral"), resolutions=[5, 10], free_weights=True, flags=False, locks=False, allow_output_antecedent=False)
             factory = lambda spec=spec: E.build(fl, spec)  # noqa: E731
@@ -519,6 +584,7 @@ def run(ctx):
             mon.fresh = {}
         probe.report(ctx)
         reach.report(ctx)
+    ctx.require("workload:substitution variables set item by item", "compare:matrix handed out by Engine.input_values worked on by the caller", "event:a step failed and the caller carried on")
     ctx.require("event:batch without rows processed twice", "compare:array handed to a variable left as it was", "law:values handed out earlier are left alone")
     ctx.require("workload:input term that hands back its argument", "compare:input values left as given", "event:rule unloaded by hand, engine looked at, then processed", "event:observer between steps", *[f"environment:{e}" for e in ENVIRONMENTS])
     ctx.require("edit:term object replaced", "edit:output terms replaced by the other family and restart")
